@@ -388,9 +388,16 @@ def c04_7(ctx):
     mod, fn = rl.get(ctx, spec)
     idp = param_names(fn)[1]
 
+    def store_target(a):
+        """the `<x>.cache[key]` target of an assignment (also inside a chained `t = cls.cache[k] = v`)"""
+        if isinstance(a, ast.Assign):
+            for t in a.targets:
+                if isinstance(t, ast.Subscript) and (dotted(t.value) or "").endswith(".cache"):
+                    return t
+        return None
+
     def is_store(n):
-        a = n.ast
-        return isinstance(a, ast.Assign) and isinstance(a.targets[0], ast.Subscript) and (dotted(a.targets[0].value) or "").endswith(".cache")
+        return store_target(n.ast) is not None
 
     def targets(m, f):
         return [n for n in cfg_of(f).stmts(("stmt",)) if is_store(n)]
@@ -416,7 +423,7 @@ def c04_7(ctx):
             out.append(ctx.bad(spec, "the cached value `%s` is not the parsed response" % ast.unparse(n.ast.value), n.ast, mod, key="stored"))
     # the key of the store is the requested id
     for n in targets(mod, fn):
-        k = n.ast.targets[0].slice
+        k = store_target(n.ast).slice
         if isinstance(k, ast.Name) and k.id == idp:
             out.append(ctx.ok(spec, "cache key is the requested id", n.ast, mod, key="store-key"))
         else:
@@ -424,6 +431,8 @@ def c04_7(ctx):
     # returns only hand out cache[tx_id]
     for n in cfg.returns():
         v = n.ast.value if n.ast is not None else None
+        if v is not None:
+            v = expand(fn, n.id, v)
         if isinstance(v, ast.Subscript) and (dotted(v.value) or "").endswith(".cache") and isinstance(v.slice, ast.Name) and v.slice.id == idp:
             out.append(ctx.ok(spec, "returns the cache entry of the requested id", n.ast, mod, key="return"))
         elif v is not None:
